@@ -71,7 +71,8 @@ Reset ==
     /\ desc' = NoDesc /\ idx' = IndexView(NoDesc) /\ ltc' = 0
     /\ cache' = EmptyCache /\ lbc' = EmptyLbc /\ nupd' = 0
     /\ conc' = Ev.conc
-    /\ UNCHANGED <<pend, bad>>
+    /\ pend' = [p \in Readers |-> None]
+    /\ UNCHANGED bad
 
 DoUpdate ==
     LET d == MOf(Ev.d) IN
@@ -99,11 +100,31 @@ DoShard ==
     IN /\ Note(If(lm # fm \/ Ev.lx # Ev.fx, "answer")
                \cup If(~Faithful(lm) \/ ~Faithful(fm), "faithful")
                \cup If(lm # want, "replay")
-               \cup If(Ev.hit /\ ~hitOK, "hit"))
+               \cup If(Ev.hit /\ ~hitOK, "hit")
+               \* re-query of a gated round: a miss means the reader's fill was refused
+               \cup If(Ev.g /\ ~Ev.hit /\ ~Ev.self /\ hitOK, "nofill"))
        /\ IF Ev.L = 0 THEN SeqPlain(Ev.id, Ev.size) ELSE SeqLb(Ev.id, Ev.size, Ev.L, Ev.now)
        /\ UNCHANGED conc
 
 DoCleanup == Cleanup(Ev.id) /\ UNCHANGED <<bad, conc>>
+
+(* Gated rounds (hook between computing a shard and filling the cache): the *)
+(* reader's two critical sections are the specification's QueryPlain /      *)
+(* QueryLb and Fill, the update delivered in between is a DoUpdate.  The    *)
+(* following re-query (an S event with g = TRUE) then observes whether the  *)
+(* code filled the cache: hit => the specification's Fill accepted ("hit"), *)
+(* miss => it refused ("nofill"), i.e. Fill refused <=> ltc changed.        *)
+GReader == CHOOSE p \in Readers : TRUE
+DoGatedQuery ==
+    /\ IF Ev.L = 0 THEN QueryPlain(GReader, Ev.id, Ev.size) ELSE QueryLb(GReader, Ev.id, Ev.size, Ev.L, Ev.now)
+    /\ UNCHANGED <<bad, conc>>
+
+\* the reader returns what it computed: the fresh answer of the version it was computed on
+DoGatedFill ==
+    LET has == pend[GReader] # None IN
+    /\ Note(If(has /\ ~Ev.self /\ (MOf(Ev.lm) # Val(pend[GReader]).m \/ Ev.lx # Ev.fx), "concurrent"))
+    /\ IF has THEN Fill(GReader) ELSE UNCHANGED vars
+    /\ UNCHANGED conc
 
 DoConcurrent ==
     /\ Note(If(Ev.ans # Ev.before /\ Ev.ans # Ev.after, "concurrent"))
@@ -121,6 +142,8 @@ TraceNext ==
          [] Ev.e = "S"  -> DoShard
          [] Ev.e = "X"  -> DoCleanup
          [] Ev.e = "CQ" -> DoConcurrent
+         [] Ev.e = "GQ" -> DoGatedQuery
+         [] Ev.e = "GF" -> DoGatedFill
 
 \* a trace is one path: the line number identifies the state
 TraceView == l
